@@ -7,6 +7,9 @@ CONSTANTS
   MaxItems = 3
   MaxPostErr = 1
   Mode = "asimpl"
+  Cap = 64
+  BufMode = "fresh"
+  RingSize = 1
 VIEW view
 INVARIANTS TypeOK NoSpuriousError StreamFidelity ErrorAfterItsData
 CHECK_DEADLOCK FALSE
